@@ -25,7 +25,10 @@ import (
 
 var c05SQL = []string{"", "1", "foo", "1 union select 1", "1' or '1'='1", "1 union all select 1", "select 1", "x' or 1=1 --", "1; drop table t",
 	"/*!*/", "`if`", "@@version", "1 and 1=1", "a not in (1)", "1 -- x", "1#\n2", "\"a\" or \"b\"", "'", "1 union/**/select 2", "rock' and roll",
-	"foo\" and bar", "1 group by 2", "1 or sleep(5)", "1 union select password from users where name like 'a%' and 1=1 -- comment comment comment"}
+	"foo\" and bar", "1 group by 2", "1 or sleep(5)",
+	// pairs with the same fingerprint and token count but different whitelist verdicts (a memo keyed too coarsely confuses them)
+	"it' left join 'us", "x' into outfile '/tmp/x", "1 union", "2 union /*x*/", "foo --", "foo /*x*/", "1 --", "1 -- x", "1/*x*/", "1 #", "a' + 'b", "'a' + 'b'",
+	"sexy and 17", "sexy and 17<18", "1 and 1", "1 and 1=1", "x' and 'y", "x' and y", "1; if 1", "1; iF 1", "1 union select password from users where name like 'a%' and 1=1 -- comment comment comment"}
 
 var c05XSS = []string{"", "<script>", "</a", "</a ", "<a href=javascript:alert(1)>", "onerror=x", "' onclick=1", "<!doctype", "<![CDATA[x]]>", "<%x%>",
 	"plain text", "</>", "<a/b=c>", "x' ", "\" href=data:x", "<!-- ` -->", "<b", "</script", "<svt>", "x", "<a href=&#106;avascript:x>", "onclick", "x onerror",
@@ -137,7 +140,11 @@ func evalHist(w *fw.W, op, aux string) {
 	got := runOp(op)
 	after := vrt.Digest()
 	w.Traces(1)
-	if want := c05Ref[op]; got != want {
+	want, okRef := c05Ref[op]
+	if !okRef {
+		panic("harness: no fresh-process reference for op " + op)
+	}
+	if got != want {
 		w.Fail("history-dependence", fmt.Sprintf("after the call history %s the call %q returns %s; as the first call of a fresh process it returns %s", showPath(path), op, got, want))
 	} else if m := modelResult(op); m != got {
 		w.Fail("history-dependence", fmt.Sprintf("call %q returns %s, the reference model says %s", op, got, m))
@@ -288,7 +295,11 @@ func exploreScenario(w *fw.W, threads [][]string, sc schedCfg, maxExec int) sche
 		for i, th := range threads {
 			var want []string
 			for _, op := range th {
-				want = append(want, c05Ref[op])
+				r, ok := c05Ref[op]
+				if !ok {
+					panic("harness: no fresh-process reference for op " + op)
+				}
+				want = append(want, r)
 			}
 			if results[i] != strings.Join(want, ";;") {
 				return "wrong-result", fmt.Sprintf("thread %d calls %s returned %q, sequential fresh-process reference %q", i, showPath(th), results[i], strings.Join(want, ";;"))
@@ -388,7 +399,7 @@ func evalSched(w *fw.W, scenario, cfgName string) {
 	}
 }
 
-var c05Collide = []string{"s:1 union select 1", "s:1 union all select 1", "s:x' or 1=1 --", "s:foo\" and bar", "s:1 -- x", "s:",
+var c05Collide = []string{"x:<!doctype", "s:1 union select 1", "s:1 union all select 1", "s:x' or 1=1 --", "s:foo\" and bar", "s:1 -- x", "s:",
 	"x:<script>", "x:</a", "x:<a href=javascript:alert(1)>", "x:' onclick=1", "x:onclick", "x:<a href=&#106;avascript:x>"}
 
 func init() {
@@ -397,7 +408,7 @@ func init() {
 		QuickS:    90,
 		ThoroughS: 900,
 		Rule: "E-HIST: breadth-first closure over package states (digest of everything reachable from every package-level variable, incl. pooled objects): from every discovered state every one of 48 operations (24 IsSQLi + 24 IsXSS inputs chosen to collide) is applied on the real code and its result compared with the fresh-process reference and the reference models; " +
-			"E-SCHED: every interleaving of 2 (thorough also 3) concurrent calls, for every unordered pair of a 12-input collision set, under the cooperative scheduler of the auto-instrumented build, preemption bound per config, checked for result = sequential reference, happens-before data races on package-level variables, deadlock and panics; " +
+			"E-SCHED: every interleaving of 2 (thorough also 3) concurrent calls, for every unordered pair of a 13-input collision set, under the cooperative scheduler of the auto-instrumented build, preemption bound per config, checked for result = sequential reference, happens-before data races on package-level variables, deadlock and panics; " +
 			"states = package states (E-HIST) + executed schedules (E-SCHED); non-trivial = a transition that changed package state / a scenario with more than one schedule",
 		Assumptions: []string{
 			"exploration is sequentially consistent and preemption-bounded (bounds in the phase descriptions); weak-memory reorderings are not modelled",
@@ -438,9 +449,9 @@ func init() {
 		},
 		Aux: racePass,
 		Phases: []fw.Phase{
-			{Name: "history-closure", Space: "BFS over package states x 48 operations, history depth <=3 (quick) / <=4 (thorough), state cap 400 / 4000", Share: 2, Serial: true,
+			{Name: "history-closure", Space: "BFS over package states x 68 operations, history depth <=3 (quick) / <=4 (thorough), state cap 400 / 4000", Share: 2, Serial: true,
 				Run: runHist, Eval: evalHist},
-			{Name: "schedules-2-threads", Space: "78 unordered pairs of the 12-input collision set x 4 scheduler configs (thorough: 6): all interleavings within the preemption bound", Share: 5,
+			{Name: "schedules-2-threads", Space: "91 unordered pairs of the 13-input collision set x 4 scheduler configs (thorough: 6): all interleavings within the preemption bound", Share: 5,
 				Run: func(w *fw.W) {
 					var items [][2]string
 					for name := range schedConfigs(w.Thorough()) {
@@ -455,7 +466,7 @@ func init() {
 				}, Eval: evalSched},
 			{Name: "schedules-2x2-calls", Space: "2 threads x 2 calls each over a 6-input subset (history inside a thread + interleaving), sync+written-vars/b2 and function-entries/b1", Share: 2,
 				Run: func(w *fw.W) {
-					sub := []string{c05Collide[0], c05Collide[2], c05Collide[6], c05Collide[7], c05Collide[9], c05Collide[10]}
+					sub := []string{c05Collide[0], c05Collide[1], c05Collide[3], c05Collide[7], c05Collide[8], c05Collide[10]}
 					var items [][2]string
 					for _, name := range []string{"sync+written-vars/b2", "function-entries/b1"} {
 						for _, a := range sub {
@@ -468,7 +479,7 @@ func init() {
 				}, Eval: evalSched},
 			{Name: "schedules-3-threads", Space: "3 threads x 1 call over a 6-input subset, sync+written-vars/b2 and function-entries/b1", Share: 3, ThoroughOnly: true,
 				Run: func(w *fw.W) {
-					sub := []string{c05Collide[0], c05Collide[2], c05Collide[6], c05Collide[7], c05Collide[9], c05Collide[10]}
+					sub := []string{c05Collide[0], c05Collide[1], c05Collide[3], c05Collide[7], c05Collide[8], c05Collide[10]}
 					var items [][2]string
 					for _, name := range []string{"sync+written-vars/b2", "function-entries/b1"} {
 						for i := range sub {
